@@ -325,6 +325,8 @@ pub struct DrawPlan {
     /// from this ply on, a move that mates or stalemates is played as soon as one exists and the
     /// history ends there (a finished game exactly at / around the fifty-move boundary)
     pub finish_terminal_from: Option<usize>,
+    /// `c` (can_declare_draw) after every `query_every`-th move (1 = after every move)
+    pub query_every: usize,
 }
 
 /// Builds `m…;c;m…;c;…;d` with `c` after every action.
@@ -335,7 +337,7 @@ pub fn draw_program(rng: &mut Rng, start: &Board, plan: &DrawPlan) -> Vec<Act> {
     let mut ply = 0usize;
     let mut guard_iter = 0;
     acts.push(Act::Can);
-    while ply < plan.target && guard_iter < 400 {
+    while ply < plan.target && guard_iter < 1200 {
         guard_iter += 1;
         let ms = match moves_of(&b) {
             Some(v) if !v.is_empty() => v,
@@ -434,7 +436,9 @@ pub fn draw_program(rng: &mut Rng, start: &Board, plan: &DrawPlan) -> Vec<Act> {
         }
         let m = chosen.unwrap();
         acts.push(Act::M(m));
-        acts.push(Act::Can);
+        if plan.query_every <= 1 || ply % plan.query_every == 0 || (ply + 8 >= 100 && ply <= 104) || (ply + 3 >= 256 && ply <= 260) {
+            acts.push(Act::Can);
+        }
         last[me] = Some(m);
         match guard(|| b.make_move_new(m)) {
             Some(n) => b = n,
@@ -477,6 +481,18 @@ pub fn cache_program(rng: &mut Rng) -> (u64, Vec<CacheOp>) {
     }
     hashes.push(rng.next_u64());
     hashes.push(!0);
+    // near-equal hashes: every stored hash also with ONE bit flipped at each of a few positions
+    // spread over the whole word (bits 0..63), so that a comparison that ignores any part of the
+    // hash (low word only, high word only, a byte) is exercised on the same slot or a neighbour
+    let base: Vec<u64> = hashes.clone();
+    for h in base.iter() {
+        for _ in 0..2 {
+            let b = match rng.below(4) { 0 => 32 + rng.below(32), 1 => rng.below(32), 2 => 63, _ => rng.below(64) };
+            hashes.push(*h ^ (1u64 << b));
+        }
+        if rng.chance(1, 3) { hashes.push(*h ^ 0xFFFF_FFFF_0000_0000); }
+        if rng.chance(1, 3) { hashes.push((*h).swap_bytes()); }
+    }
     let val = |rng: &mut Rng| -> u32 {
         match rng.below(5) {
             0 => 7,
